@@ -85,10 +85,11 @@ def observe(case):
         nodes, segment = build(case, path)
         gids = None if case.get('persistent') is None else [nodes[i].gid for i in case['persistent']]
 
-        def compiled():
+        def compiled(shared=False):
             assets = None
             if gids is not None:
-                assets = c01.Assets(gids, {nodes[i].gid: case['previous'].get(str(i)) for i in case['persistent']})
+                root = tempfile.mkdtemp(prefix='assets_', dir=tmp) if shared else None
+                assets = c01.Assets(gids, {nodes[i].gid: case['previous'].get(str(i)) for i in case['persistent']}, root)
             return flow.compile(segment, assets), assets
 
         out = {}
@@ -120,7 +121,7 @@ def observe(case):
         out['dask'] = {}
         for scheduler in case.get('schedulers', ['synchronous', 'threads']):
             os.path.exists(path) and os.unlink(path)
-            symbols, assets = compiled()
+            symbols, assets = compiled(shared=scheduler == 'processes')
             try:
                 with dask.config.set(scheduler=scheduler):
                     daskrun.Runner.run(symbols)
